@@ -180,7 +180,9 @@ func vfC11(w *vfWorld) {
 	f8 := false
 	// (1) every presented session cookie is deleted from the jar, i.e. the deletion named the same
 	//     name, path and domain under which the cookie was set
-	if success || cs.DelFault == "none" {
+	//     - also when the store could not remove the session and the answer is the error page: the browser is told to
+	//     drop the credential whatever happens to the store entry
+	if so.Status != 0 {
 		for _, c := range presentedSess {
 			for _, j := range b.jar {
 				if j == c {
